@@ -696,6 +696,8 @@ func C17(c *core.Ctx) {
 	}
 	c.Extra["decoded_val_field_reads"] = nVal
 
+	c17Round4(c)
+
 	// ---- R17.6 every dereference of an optional element of a decoded message in the
 	// management package (handlers with or without a mutation, dataset queries, the thread's
 	// own dispatch) is behind its presence test — also when presence is coupled to another
@@ -866,4 +868,334 @@ func valueOkHelper(fn *ssa.Function, at ssa.Instruction, v ssa.Value, isSource f
 		}
 	}
 	return false
+}
+
+// c17Round4 — rules added for defects a bug-hunting agent demonstrated on the unmodified tree.
+//
+// R17.1b the link-local management prefix is served only when localhop management is
+// enabled: module dispatch is reachable only under localPrefix.IsPrefix(name) or with
+// enableLocalhopManagement true (the FIB not having a /localhop/nfd entry is not enough: a
+// forwarding hint or NextHopFaceId still brings the Interest to the internal face).
+//
+// R17.7 strategy-choice/set installs only a strategy instance the forwarding threads have:
+// the table mutator is unreachable for a strategy name with components after the version,
+// and the name handed to it ends in a version component built by NewVersionComponent.
+//
+// R17.8 a response is never nil: the parameter dictionary of makeControlResponse is nil or
+// a map built in the handler itself, never a dictionary derived from the request (which may
+// hold fields the response encoder rejects; makeControlResponse then returns nil and
+// sendResponse dereferences it).
+//
+// R17.9 a FacePersistency number taken from the command becomes a face.Persistency only
+// behind a comparison with one of the persistencies.
+func c17Round4(c *core.Ctx) {
+	p := c.P
+	pkg := core.ModPath + "/fw/mgmt"
+	// ---- R17.1b
+	if run := c.Fn("R17.1", "fw/mgmt", "Thread", "Run"); run != nil {
+		var disp []ssa.Instruction
+		for _, ci := range core.FindCallsDeep(run, core.CalleeID{Pkg: "fw/mgmt", Recv: "Module", Name: "handleIncomingInterest"}) {
+			disp = append(disp, ci)
+		}
+		local := atomCallTrue("localPrefix.IsPrefix(name)", func(cl *ssa.Call) bool {
+			cc, ok := core.IsCall(cl, core.CalleeID{Pkg: "std/encoding", Recv: "Name", Name: "IsPrefix"})
+			if !ok {
+				return false
+			}
+			r, _ := core.CallArgs(cc)
+			_, okF := core.FieldOf(r, "localPrefix")
+			return okF
+		})
+		enabled := &core.Atom{Name: "enableLocalhopManagement", Match: func(cond ssa.Value) (int, int) {
+			if u, ok := core.Strip(cond).(*ssa.UnOp); ok && u.Op == token.MUL {
+				if g, isG := u.X.(*ssa.Global); isG && g.Name() == "enableLocalhopManagement" {
+					return 1, -1
+				}
+			}
+			return 0, 0
+		}}
+		g := core.GateDeep(run, disp, pos(local), pos(enabled))
+		c.Decide(len(disp) > 0 && g.OK && g.PerLit[0] > 0 && g.PerLit[1] > 0, "R17.1", "localhop-prefix-only-when-enabled", p.Pos(run.Pos()), "dispatch is reachable only under the local prefix or with localhop management enabled", "the management thread dispatches commands named under the link-local prefix /localhop/nfd although localhop management is disabled: a non-local face that steers such an Interest to the internal face (forwarding hint /localhost/nfd) gets rib/register executed and installs a route to itself; path: "+p.PathString(g.Path))
+	}
+
+	// ---- R17.7
+	if set := c.Fn("R17.7", "fw/mgmt", "StrategyChoiceModule", "set"); set != nil {
+		var muts []ssa.Instruction
+		for _, ci := range core.FindCallsDeep(set, core.CalleeID{Pkg: "fw/table", Recv: "FibStrategy", Name: "SetStrategyEnc"}) {
+			muts = append(muts, ci)
+		}
+		isStratName := func(v ssa.Value) bool {
+			_, path := core.FieldPath(v)
+			return len(path) >= 2 && path[len(path)-1] == "Name" && path[len(path)-2] == "Strategy"
+		}
+		tooLong := &core.Atom{Name: "len(Strategy.Name) > len(prefix)+2", Match: func(cond ssa.Value) (int, int) {
+			op, x, y, ok := core.Cmp(cond)
+			if !ok {
+				return 0, 0
+			}
+			lx, isLen := core.LenOf(core.StripConv(x))
+			if !isLen || !isStratName(lx) {
+				return 0, 0
+			}
+			b, isB := core.StripConv(y).(*ssa.BinOp)
+			if !isB || b.Op != token.ADD {
+				return 0, 0
+			}
+			k, isC := core.ConstInt(b.Y)
+			pl, isL := core.LenOf(core.StripConv(b.X))
+			if !isC || !isL {
+				return 0, 0
+			}
+			if _, okP := core.FieldOf(pl, "strategyPrefix"); !okP {
+				return 0, 0
+			}
+			switch {
+			case op == token.GTR && k == 2, op == token.GEQ && k == 3:
+				return 1, -1
+			case op == token.LEQ && k == 2, op == token.LSS && k == 3:
+				return -1, 1
+			}
+			return 0, 0
+		}}
+		g := core.GateDeep(set, muts, neg(tooLong))
+		c.Decide(len(muts) > 0 && g.OK && g.PassEdges > 0, "R17.7", "no-components-after-version", p.Pos(set.Pos()), "SetStrategyEnc is unreachable for a strategy name with more than prefix+2 components", "strategy-choice/set installs a strategy name with components after the version (…/best-route/v=1/extra) and answers 200: no forwarding thread has an instance under that name, the next packet under the prefix finds a nil strategy and crashes the daemon")
+		// the installed name ends in a freshly built version component
+		canon := func(v ssa.Value) bool {
+			seen := map[ssa.Value]bool{}
+			var walk func(v ssa.Value, d int) bool
+			walk = func(v ssa.Value, d int) bool {
+				v = core.Strip(v)
+				if seen[v] || d > 6 {
+					return false
+				}
+				seen[v] = true
+				if cl, ok := v.(*ssa.Call); ok {
+					if b, isB := cl.Call.Value.(*ssa.Builtin); isB && b.Name() == "append" && len(cl.Call.Args) == 2 {
+						// append(base, <slice literal holding NewVersionComponent(..)>...)
+						okEl := false
+						if sl, isSl := core.Strip(cl.Call.Args[1]).(*ssa.Slice); isSl {
+							if al, isAl := core.Strip(sl.X).(*ssa.Alloc); isAl {
+								for _, r := range core.Refs(al) {
+									if ia, isIA := r.(*ssa.IndexAddr); isIA {
+										for _, r2 := range core.Refs(ia) {
+											if st, isSt := r2.(*ssa.Store); isSt {
+												if c2, isC := core.Strip(st.Val).(*ssa.Call); isC {
+													if id, okID := core.Callee(&c2.Call); okID && id.Name == "NewVersionComponent" {
+														okEl = true
+													}
+												}
+											}
+										}
+									}
+								}
+							}
+						}
+						return okEl
+					}
+				}
+				if ph, ok := v.(*ssa.Phi); ok {
+					for _, e := range ph.Edges {
+						if !walk(e, d+1) {
+							return false
+						}
+					}
+					return len(ph.Edges) > 0
+				}
+				return false
+			}
+			return walk(v, 0)
+		}
+		for i, m := range muts {
+			_, args := core.CallArgs(m.(ssa.CallInstruction).Common())
+			okC := false
+			if len(args) == 2 {
+				if canon(args[1]) {
+					okC = true
+				} else if isStratName(args[1]) {
+					// the field was overwritten with the canonical name on every path to the call
+					okC = core.PrecedesDeep(set, m, func(x ssa.Instruction) bool {
+						st, ok := x.(*ssa.Store)
+						if !ok {
+							return false
+						}
+						fa, ok := st.Addr.(*ssa.FieldAddr)
+						if !ok {
+							return false
+						}
+						if _, fld := core.FieldAddrName(fa); fld != "Name" {
+							return false
+						}
+						return canon(st.Val)
+					})
+				}
+			}
+			c.Decide(okC, "R17.7", fmt.Sprintf("installed-strategy-name-is-canonical#%d", i), c.Pos(m), "the installed strategy name ends in NewVersionComponent(version) on every path", "strategy-choice/set hands the strategy name of the command to the table as it came (at least on one path): a version number in a longer-than-shortest encoding is stored verbatim, the forwarding threads know the instance under the canonical name only, and the next packet under the prefix crashes the daemon")
+		}
+	}
+
+	// ---- R17.8
+	nResp := 0
+	for _, fn := range p.FuncsIn(pkg) {
+		if strings.HasSuffix(p.File(fn.Pos()), "_test.go") {
+			continue
+		}
+		core.Instrs(fn, func(in ssa.Instruction) {
+			ci, ok := in.(ssa.CallInstruction)
+			if !ok {
+				return
+			}
+			id, ok := core.Callee(ci.Common())
+			if !ok || id.Pkg != "fw/mgmt" || id.Name != "makeControlResponse" || len(ci.Common().Args) != 3 {
+				return
+			}
+			nResp++
+			seen := map[ssa.Value]bool{}
+			var local func(v ssa.Value) (bool, string)
+			local = func(v ssa.Value) (bool, string) {
+				v = core.Strip(v)
+				if seen[v] {
+					return true, ""
+				}
+				seen[v] = true
+				switch x := v.(type) {
+				case *ssa.Const, *ssa.MakeMap:
+					return true, ""
+				case *ssa.Phi:
+					for _, e := range x.Edges {
+						if ok, w := local(e); !ok {
+							return false, w
+						}
+					}
+					return true, ""
+				case *ssa.UnOp:
+					if al, isAl := x.X.(*ssa.Alloc); isAl && x.Op == token.MUL {
+						for _, r := range core.Refs(al) {
+							if st, isSt := r.(*ssa.Store); isSt && st.Addr == ssa.Value(al) {
+								if ok, w := local(st.Val); !ok {
+									return false, w
+								}
+							}
+						}
+						return true, ""
+					}
+				case *ssa.Call:
+					return false, "the result of " + calleeName(x)
+				}
+				return false, describeValue(v)
+			}
+			okL, why := local(ci.Common().Args[2])
+			if !okL {
+				c.Viol("R17.8", "response-parameters-built-locally:"+core.FuncName(fn), c.Pos(in), core.FuncName(fn)+" builds a response from "+why+": a dictionary derived from the request can hold a field the response encoder rejects (a Strategy field comes out of ToDict as a map); makeControlResponse then returns nil and sendResponse dereferences it — the management thread crashes")
+			}
+		})
+	}
+	c.Decide(true, "R17.8", "response-parameters-built-locally", "-", fmt.Sprintf("%d makeControlResponse calls inspected", nResp), "")
+	c.Floor("R17.8", "makeControlResponse call sites", nResp, 20)
+
+	// ---- R17.9
+	nConv := 0
+	for _, fn := range p.FuncsIn(pkg) {
+		if strings.HasSuffix(p.File(fn.Pos()), "_test.go") {
+			continue
+		}
+		var effects []ssa.Instruction
+		var src ssa.Value
+		core.Instrs(fn, func(in ssa.Instruction) {
+			var cv ssa.Value
+			var operand ssa.Value
+			switch x := in.(type) {
+			case *ssa.Convert:
+				cv, operand = x, x.X
+			case *ssa.ChangeType:
+				cv, operand = x, x.X
+			default:
+				return
+			}
+			if nt, ok := cv.Type().(*types.Named); !ok || nt.Obj().Name() != "Persistency" {
+				return
+			}
+			if !isDerefOfField(operand, "FacePersistency") {
+				return
+			}
+			// adopted (reaches a call of fw/face), not merely logged
+			adopted := false
+			seen := map[ssa.Value]bool{}
+			var walk func(v ssa.Value)
+			walk = func(v ssa.Value) {
+				if seen[v] {
+					return
+				}
+				seen[v] = true
+				for _, r := range core.Refs(v) {
+					switch y := r.(type) {
+					case *ssa.Phi:
+						walk(y)
+					case ssa.CallInstruction:
+						if id, ok := core.Callee(y.Common()); ok && id.Pkg == "fw/face" {
+							adopted = true
+						}
+					}
+				}
+			}
+			walk(cv)
+			if adopted {
+				effects = append(effects, in)
+				src = operand
+			}
+		})
+		if len(effects) == 0 {
+			continue
+		}
+		nConv += len(effects)
+		c.Funcs[core.FuncName(fn)] = true
+		inRange := &core.Atom{Name: "FacePersistency == a persistency", Match: func(cond ssa.Value) (int, int) {
+			op, x, y, ok := core.Cmp(cond)
+			if !ok || (op != token.EQL && op != token.NEQ) {
+				return 0, 0
+			}
+			if _, isC := core.ConstInt(x); isC {
+				x, y = y, x
+			}
+			k, isC := core.ConstInt(y)
+			if !isC || k < 0 || k > 2 || !isDerefOfField(core.StripConv(x), "FacePersistency") {
+				return 0, 0
+			}
+			if op == token.EQL {
+				return 1, 0
+			}
+			return 0, 1
+		}}
+		_ = src
+		// edges asserting that the parameter is absent cannot lead to the conversion, which
+		// dereferences it (R17.6): cut them too, so that the absent-at-validation /
+		// present-at-use combination is not taken for a path
+		present := &core.Atom{Name: "FacePersistency != nil", Match: func(cond ssa.Value) (int, int) {
+			op, x, y, ok := core.Cmp(cond)
+			if !ok || (op != token.EQL && op != token.NEQ) {
+				return 0, 0
+			}
+			if core.IsNilConst(x) {
+				x, y = y, x
+			}
+			if !core.IsNilConst(y) {
+				return 0, 0
+			}
+			if _, isF := core.FieldOf(x, "FacePersistency"); !isF {
+				return 0, 0
+			}
+			return core.Iff(op == token.NEQ)
+		}}
+		cut, per := core.CutEdgesDeep(fn, pos(inRange), neg(present))
+		for e := range core.FlagCuts(fn, effects) {
+			cut[e] = true
+		}
+		bad := ""
+		for _, e := range effects {
+			if path := core.ReachInstr(fn, e, cut, nil); path != nil {
+				bad = c.Pos(e) + " via " + p.PathString(path)
+			}
+		}
+		c.Decide(bad == "" && per[0] > 0, "R17.9", "persistency-number-validated:"+core.FuncName(fn), p.Pos(fn.Pos()), fmt.Sprintf("%d conversions of the FacePersistency parameter, each behind a comparison with a persistency", len(effects)), core.FuncName(fn)+" turns the FacePersistency number of the command into a face.Persistency without having compared it with any persistency on some path ("+bad+"): a value such as 99 is answered 200 and stored on the face")
+	}
+	c.Floor("R17.9", "adopted conversions of the FacePersistency parameter", nConv, 2)
 }
